@@ -295,8 +295,12 @@ class _PipelineNodeFactory:
             name=f"{data_io_class.__name__}_DataSourceNode",
             base_cls=_DataSourceNode,
             processor=data_io_class,
+            # a list, like the adapter's own get_created_keys() (a source may
+            # name its keys in a tuple)
             get_created_keys=classmethod(
-                lambda cls: getattr(cls.processor, "get_created_keys", lambda: [])()
+                lambda cls: list(
+                    getattr(cls.processor, "get_created_keys", lambda: [])()
+                )
             ),
         )
 
